@@ -275,6 +275,10 @@ func (c *FuncCtx) evalUnary(st *State, x *ast.UnaryExpr) *Val {
 	switch x.Op {
 	case token.NOT:
 		v := c.eval(st, x.X)
+		if v.SA != "" {
+			// polarity flips under negation
+			return &Val{T: tBool, S: mkNot(v.SA), SA: mkNot(v.S), Sort: "Bool"}
+		}
 		return &Val{T: tBool, S: mkNot(v.S), Sort: "Bool"}
 	case token.SUB:
 		v := c.eval(st, x.X)
@@ -1134,7 +1138,9 @@ func (c *FuncCtx) readFacts(st *State, r *Val) {
 // element (scanStruct/AddGroup/AddCommand/fillParseState only ever store
 // freshly allocated objects). Assumed at element reads in code.
 func (c *FuncCtx) wfElem(st *State, r *Val) {
-	if c.inSpec(st) || !c.eng.spec.WfNonNil {
+	// (also inside specifications: under a quantifier the fact becomes a side
+	// fact of the quantified formula, see Val.SA)
+	if !c.eng.spec.WfNonNil {
 		return
 	}
 	if p, ok := under(r.T).(*types.Pointer); ok && c.eng.isHeapStruct(p.Elem()) {
